@@ -27,6 +27,7 @@ func flavours() []flavour {
 		// runtime-config makes ts-sql add /runtime_config after NewHandler
 		{Name: "logkeeper", Worker: 1, LogKeeper: true, Extra: map[string][]string{
 			"common":         {`product-type = "logkeeper"`},
+			"http":           {`flight-enabled = true`}, // the log record writer only exists with the flight service
 			"runtime-config": {`enabled = true`, `load-path = "{{dir}}/runtime.yaml"`, `reload-period = "10s"`},
 		}},
 	}
